@@ -183,9 +183,9 @@ Proof.
   cbn [fc_seq]. destruct (fc_expr i x) as [i1 c1]. now rewrite IH.
 Qed.
 
-Lemma fc_expr_structural imm es : fc_expr imm (EStructural es) = fc_seq imm es.
+Lemma fc_expr_structural imm es : fc_expr imm (EStructural es) = fc_seq false es.
 Proof.
-  cbn [fc_expr]. revert imm. induction es as [|x xs IH]; intros i; [reflexivity|].
+  cbn [fc_expr]. generalize false. induction es as [|x xs IH]; intros i; [reflexivity|].
   cbn [fc_seq]. destruct (fc_expr i x) as [i1 c1]. now rewrite IH.
 Qed.
 
@@ -1508,21 +1508,18 @@ Example ex_not_immediate :
          [EDeref (Ref (Some vY) [Element (rd cC arr)] 0%N) (POk i32)])) = [E531].
 Proof. vm_compute. repeat split; reflexivity. Qed.
 
-(* SURPRISE 1: Expression::Structural does not clear the flag, so a whole array is
-   copied into a structure literal that is an argument:
-     take(S { b: d, a: 1 });                 accepted (real compiler: ok)
+(* A structure literal clears the flag as an array literal does (D79, repaired: at the pinned commit
+   `take(S { b: d, a: 1 })` copied the whole array d, and whether `take(S { a: id(1), b: d })` did
+   depended on the order of the members):
+     take(S { b: d, a: 1 });                 E531
      var s = S { b: d, a: 1 };               E531 *)
-Theorem aggregate_copy_inside_structural_argument_accepted :
-  snd (fc_stmt (SMethodCall 30%N [EStructural [rd vY arr; ELeaf]])) = [] /\
+Theorem aggregate_copy_inside_structural_argument_rejected :
+  snd (fc_stmt (SMethodCall 30%N [EStructural [rd vY arr; ELeaf]])) = [E531] /\
   snd (fc_stmt (SDeclaration 5%N (Some (EStructural [rd vY arr; ELeaf])) PNone)) = [E531].
 Proof. vm_compute. split; reflexivity. Qed.
 
-(* SURPRISE 2: and it depends on the ORDER of the members, because a call in an earlier
-   member leaves the flag cleared:
-     take(S { b: d, a: id(1) });             accepted (real compiler: ok)
-     take(S { a: id(1), b: d });             E531     (real compiler: E531) *)
-Theorem structural_argument_order_matters :
-  snd (fc_stmt (SMethodCall 30%N [EStructural [rd vY arr; ECall 31%N [ELeaf]]])) = [] /\
+Theorem structural_argument_order_does_not_matter :
+  snd (fc_stmt (SMethodCall 30%N [EStructural [rd vY arr; ECall 31%N [ELeaf]]])) = [E531] /\
   snd (fc_stmt (SMethodCall 30%N [EStructural [ECall 31%N [ELeaf]; rd vY arr]])) = [E531].
 Proof. vm_compute. split; reflexivity. Qed.
 
@@ -1619,4 +1616,4 @@ Print Assumptions accepted_call_types_match.
 Print Assumptions pointer_parameter_needs_address.
 Print Assumptions elaborated_assignment_typed.
 Print Assumptions elaborated_slice_pointer_refuted.
-Print Assumptions structural_argument_order_matters.
+Print Assumptions structural_argument_order_does_not_matter.
